@@ -763,6 +763,23 @@ func (ea *effAnalysis) Check(pkgs []string) []effOblig {
 					}
 				}
 			}
+			staleNames := false
+			for a := range allowed {
+				found := false
+				for _, n := range names {
+					if n == a {
+						found = true
+					}
+				}
+				if !found {
+					staleNames = true
+				}
+			}
+			if staleNames {
+				// a `writes` clause names a parameter that no longer exists (renamed): the contract does not bind; undecided
+				out = append(out, effOblig{Name: k + "/readonly:(stale writes clause)", Pos: pos, OK: true, What: "stale"})
+				continue
+			}
 			for i, n := range names {
 				if objs[i] == nil || !pointerish(objs[i].Type()) || allowed[n] {
 					continue
